@@ -419,7 +419,7 @@ def eval_adverb_scan_while(klong, f, a, b, backend):
     """
     r = [b]
     # TODO: fix arity
-    while klong.eval(KGCall(a, b, arity=1)):
+    while kg_is_true(klong.eval(KGCall(a, b, arity=1)), backend):
         b = f(b)
         r.append(b)
     r.pop()
@@ -460,7 +460,7 @@ def eval_adverb_while(klong, f, a, b):
         Example: {x<1000}{x*2}:~1  -->  1024
 
     """
-    while klong.eval(KGCall(a, b, arity=1)):
+    while kg_is_true(klong.eval(KGCall(a, b, arity=1)), klong._backend):
         b = f(b)
     return b
 
